@@ -15,7 +15,11 @@ THEOREMS = [
     "BeyondVerif.C15.access_foreign_refused",
     "BeyondVerif.C15.access_slot_sound",
     "BeyondVerif.C15.setForm_unknown_atomic",
+    "BeyondVerif.C15.setForm_unknown_error_atomic",
+    "BeyondVerif.C15.runFormSteps_atomic",
+    "BeyondVerif.C15.formSteps_atomicOrder",
     "BeyondVerif.C15.setForm_error_atomic",
+    "BeyondVerif.C15.setFormX_eq_setForm",
     "BeyondVerif.C15.setFrame_unknown_atomic",
     "BeyondVerif.C15.setFrameBasic_error_atomic",
     "BeyondVerif.C15.setFrameBasic_error_keeps_labels",
@@ -23,6 +27,8 @@ THEOREMS = [
     "BeyondVerif.C15.setFrame_error_atomic",
     "BeyondVerif.C15.setFrame_error_frame",
     "BeyondVerif.C15.stdDeepcopy_separate",
+    "BeyondVerif.C15.copyForm_ok_new",
+    "BeyondVerif.C15.transformObj_separate",
     "BeyondVerif.C15.covSetFrame_error_atomic",
     "BeyondVerif.C15.setFrame_error_cases",
     "BeyondVerif.C15.copy_receiver_unchanged",
@@ -80,7 +86,9 @@ LEVEL_TEXT = ("Lean theorems over an object-graph (heap) model of StateVector/Or
               "(original_mutations_invisible); a covariance built from a list, an ndarray or another covariance gets a new buffer cell and only the owner's own dict is "
               "rewritten (attachCov_result, covFrom_frame); the maneuver getter creates a new list per object (getMans_creates_new); every failing form change and every failing covariance frame change leaves the heap identical, a "
               "failing frame assignment — unknown name, Hill, unreachable centre, missing EOP data, the covariance that has to follow cannot be converted — from ANY form leaves form, frame, _data and every cell but the coordinate buffer "
-              "bit-identical and the buffer untouched or the round trip form->cartesian->form of its content (setFrame_error_atomic, setFrame_error_frame, in full since /repo 45ca5d0); copy.deepcopy writes no old cell and stores only new "
+              "bit-identical and the buffer untouched or the round trip form->cartesian->form of its content (setFrame_error_atomic, setFrame_error_frame, in full since /repo 45ca5d0); a failing FORM change — unknown name or the conversion raising on any leg "
+              "of its route — leaves the heap bit-identical, proved over the order of effects of the setter read from its AST on every run (formSteps_atomicOrder by kernel decide, setForm_error_atomic; setFormX_eq_setForm ties the interpreted order to the "
+              "hand-written setter of the other theorems); the object Frame.transform returns is separate from its argument (transformObj_separate); copy.deepcopy writes no old cell and stores only new "
               "addresses (stdDeepcopy_separate); StateVector->Orbit->StateVector gives back the coordinates, form, frame and every immutable _data entry; name/alias/index resolution decided over the tables "
               "regenerated from beyond.orbits.forms on every run. The model agrees exactly (object-identity partition incl. memory owners of all buffers and cloned Frame objects, labels, error kinds, bit-identical buffers) with the "
               "real classes on random operation sequences.")
@@ -90,6 +98,7 @@ LEVEL_NOTE = ("shared maneuver objects (kept on purpose by the library) are the 
               "up to the intermediate maneuver lists of copy() (stdDeepcopy_separate) and kernel-checked on a witness heap (deepcopy_shares_nothing), not for every heap; heap model hand-written, tied by the correspondence run; Lean kernel + propext/Classical.choice/Quot.sound")
 TECHNIQUE = "Lean 4 proof over an object-graph (heap) model + kernel decide on regenerated name/alias tables; exact model/implementation correspondence"
 TRUSTED = [
+    "harness/props/C15.py form_setter_steps: the order of the effects (convert / store / commit) of StateVector.form.fset read from the AST of statevector.py -> Generated/HeapTables.lean formSetterSteps (an unrecognised statement stops the run as a broken extraction)",
     "harness/props/C15.py extract: Form.param_names, Form.alt, forms._cache, _cache_param_names, the frame registry and the property names of the classes, read from live objects (cross-checked against the Form(...) literals in forms.py) -> Generated/FormTables.lean",
     "correspondence: real StateVector/Orbit/Cov objects vs the compiled Lean model on identical operation sequences; after every operation the whole object graph reachable from all variables is compared: "
     "partition of mutable objects by id() and of every ndarray buffer (state vectors, covariances, metadata arrays) by the object that owns its memory, identity of cloned Frame objects, kinds, keys, labels, error kind, and every "
@@ -116,6 +125,9 @@ NOT_COVERED = [
     "a form change that fails for another reason than an unknown name (an exception inside Form.__call__): no input of the generators reaches one",
     "Cov frame conversions to/from the Hill frame beyond the error kind; numerical content of covariance rotations (C14); the stale _orb_frame of a Cov re-attached to a state in another frame (C14)",
     "Orbit.propagate / Infos caches (C08, C01)",
+    "objects returned by Orbit.propagate / iter / ephem and by Ephem.interpolate / propagate / iter / ephem / copy, and Tle.orbit(): judged by the oracle (identity partition with receiver and stored orbits + every in-place mutation, both "
+    "directions), not in the heap model (the propagator would need a state of its own); Ephem.__getitem__ / __iter__ hand out the stored objects themselves (container access, not a conversion)",
+    "the object Frame.transform returns keeps the OLD Frame under `frame` and carries the new one under the extra key `_frame` (only its values are used by the setters): modelled and compared as it is, not judged",
 ]
 OPEN = [
     "content equality of copies: that a copied / unpickled container holds the same values as the original (an isomorphism of object graphs) is compared exactly by the correspondence, proved only for immutable entries (as_orbit_as_statevector_id) and values (copy_separate_depth1, attachCov_result)",
@@ -127,11 +139,13 @@ OPEN = [
 ]
 RULE = ("correspondence: (a) exhaustive name resolution: every form x every reserved name, alias and two free keys; (b) random sequences of 1-2 constructions (form, frame incl. Hill, Orbit or StateVector, metadata absent / non-empty and nested / "
         "EMPTY containers / empty containers inside non-empty ones, maneuvers, covariance in own/local/other frame) followed by 1-6 operations drawn (weights OP_WEIGHTS) from copy, copy(form), copy(frame), as_orbit, as_statevector, the constructors given "
-        "an existing object, form=, frame= (incl. unknown names, Hill, aliases), frame= made to fail by an unreachable centre or by the EOP 'error' policy, setattr/setitem by name/alias/foreign name/free key, index assignment, cov.frame=, a mere read of "
+        "an existing object, form=, form= with leg k of its route made to raise (fault injection, k over the whole route), Frame.transform called directly, frame= (incl. unknown names, Hill, aliases), frame= made to fail by an unreachable centre or by the EOP 'error' policy, setattr/setitem by name/alias/foreign name/free key, index assignment, cov.frame=, a mere read of "
         "maneuvers, maneuvers.append, append / setitem on metadata containers (also nested, also on keys that are missing or of the wrong type), cov= from values and from the covariance of another object, pickle round trip, copy.deepcopy; targets are "
         "drawn among ALL objects alive (copies of copies); a case is non-trivial when it has >= 2 operations; distinct = distinct request line; cases whose buffers hold non-finite numbers are skipped and counted. oracle: for every converting method "
         "(incl. pickle, copy(same=)) x every in-place mutation (every container reachable from _data, in-place arithmetic, the maneuver list through its getter) x both directions, deep snapshot of the other object, plus the identity partition of the two "
-        "object graphs; every constructor form of Cov / StateVector / Orbit; every failing setter (unknown name, Hill both ways, unreachable centre, EOP error; on the state and on its covariance) from every form; the same operation sequences as the "
+        "object graphs; every constructor form of Cov / StateVector / Orbit; every failing setter (unknown name, Hill both ways, unreachable centre, EOP error; on the state and on its covariance) from every form; failing form changes (frame whose centre has no body from spherical/cylindrical/cartesian to every keplerian-family form; hyperbolic, circular-equatorial and rectilinear states under np.errstate(all=raise) from 4 forms to every form; "
+        "every leg of routes between the ten forms made to raise, through the setter and through copy(form=)); every public method returning a state object (Frame.transform, Form.__call__, Orbit.propagate/iter/ephem, Ephem.interpolate/propagate/iter/ephem/copy, "
+        "Tle.orbit) by identity partition and mutate-one-observe-other; the same operation sequences as the "
         "correspondence judged step by step by the statement (history oracle); name/alias/index on every form; pickle and StateVector<->Orbit round trips")
 
 FRAMES = ["EME2000", "MOD", "TOD", "TEME", "PEF", "ITRF"]
@@ -1076,6 +1090,243 @@ def check_roundtrip_types(out, rng, spec):
         out.fail("roundtrip-propagator", "as_orbit does not attach the propagator", inp)
 
 
+# ---------------------------------------------------------------- oracle: failing FORM changes, on every leg of every route
+
+class nobody_frame:
+    """a frame (orientation EME2000) centred on a point that carries no attracting body (a barycentre, a probe): every conversion leg
+    that needs mu raises AttributeError, the geometric ones (spherical, cylindrical <-> cartesian) work"""
+
+    def __enter__(self):
+        import numpy as np
+        from beyond.frames import frames, center, orient
+        self.prev = frames.dynamic.get("NoBody")
+        c = center.Center("NoBody")
+        c.add_link(center.Earth, orient.EME2000, np.array([3e8, 1e8, 0.0, 0.0, 0.0, 0.0]))
+        return frames.Frame("NoBody", orient.EME2000, c, exists_warning=False)
+
+    def __exit__(self, *a):
+        from beyond.frames import frames, center
+        frames.dynamic.pop("NoBody", None)
+        if self.prev is not None:
+            frames.dynamic["NoBody"] = self.prev
+        if hasattr(center.Center, "NoBody_to_Earth"):
+            delattr(center.Center, "NoBody_to_Earth")
+        return False
+
+
+def route_legs(src, dst):
+    """names of the conversion functions `Form.__call__` walks from form src to form dst"""
+    from beyond.orbits.forms import get_form
+    if src == dst:
+        return []
+    return [f"_{a.name.lower()}_to_{b.name.lower()}" for a, b in get_form(src).steps(get_form(dst).name)]
+
+
+class failing_leg:
+    """fault injection: one leg of the conversion graph raises (what a body without mu, a degenerate state under np.errstate(raise), a
+    future range check ... do on that leg)"""
+
+    def __init__(self, leg):
+        self.leg = leg
+
+    def __enter__(self):
+        from unittest import mock
+        from beyond.orbits.forms import Form
+        self.p = mock.patch.object(Form, self.leg, side_effect=ValueError(f"injected failure in {self.leg}"))
+        self.p.start()
+
+    def __exit__(self, *a):
+        self.p.stop()
+        return False
+
+
+SPECIAL_STATES = {
+    "hyperbolic": [7.0e6, 0.0, 0.0, 0.0, 12.0e3, 1.0e3],
+    "circular-equatorial": [7.0e6, 0.0, 0.0, 0.0, 7546.0533, 0.0],
+    "rectilinear": [7.0e6, 0.0, 0.0, 3.0e3, 0.0, 0.0],
+}
+
+
+def _judge_failed_form(out, sv, thunk, ctx, fam, what, inp):
+    """run one form assignment that is expected to raise; when it does, the object must be bit-identical to what it was"""
+    before = snap_full(sv)
+    with ctx:
+        how, err = attempt(thunk)
+    if how == "ok":
+        return False
+    after = snap_full(sv)
+    if how == "hang":
+        out.fail(fam.replace("state", "hangs"), f"{what}: the assignment does not return", inp, observed=repr(err))
+    elif after != before:
+        out.fail(fam, f"{what}: raised {type(err).__name__} and left the object changed ({snap_diff(before, after)}): form {after[0][1]}, expected {before[0][1]}", inp,
+                 observed=str(after[0][:4])[:300], expected=str(before[0][:4])[:300])
+    return True
+
+
+def check_failed_form_change(out, rng, spec, thorough=False):
+    """O3 for the form setter: a form change that fails on ANY leg of its route — not only the first — leaves form, values and everything
+    else bit-identical. Ways to fail: a frame whose centre has no body (mu); hyperbolic / degenerate states with numpy told to raise;
+    fault injection on every leg of every route between the ten forms; also through copy(form=) (receiver) """
+    import contextlib
+    import numpy as np
+    from beyond.orbits import StateVector
+    # 1. no body
+    for src in ("spherical", "cylindrical", "cartesian"):
+        for dst in [f for f in FORMS if f not in ("spherical", "cylindrical", "cartesian")]:
+            with nobody_frame() as fr:
+                base = make_state(rng, dict(spec, form=src, frame="EME2000", cov=False))
+                base._data["frame"] = fr
+                out.count(key=("form-nobody", src, dst, spec["orbit"], spec.get("meta")), kind="failed-form-change", case="no-body")
+                raised = _judge_failed_form(out, base, lambda: setattr(base, "form", dst), contextlib.nullcontext(), "failed-change-state-form-nobody",
+                                            f"{src} state in a frame whose centre has no body set to '{dst}'", {"spec": spec, "case": "form-nobody", "src": src, "dst": dst})
+                if not raised:
+                    out.fail("no-error-form-nobody", f"{src} -> {dst} without a body did not raise", {"spec": spec, "case": "form-nobody", "src": src, "dst": dst})
+    # 2. special states, numpy raising
+    for label, cart in SPECIAL_STATES.items():
+        for src in ("cartesian", "spherical", "cylindrical", "keplerian"):
+            for dst in FORMS:
+                if dst == src:
+                    continue
+                d = make_state(rng, dict(spec, form="cartesian", frame="EME2000", cov=False))
+                sv = StateVector(cart, d.date, "cartesian", "EME2000", **{k: v for k, v in d._data.items() if k not in ("date", "form", "frame", "cov", "propagator")})
+                how, _ = attempt(lambda: setattr(sv, "form", src))
+                if how != "ok" or not np.all(np.isfinite(np.asarray(sv))):
+                    out.tally(f"special-state-not-representable={label}:{src}")
+                    continue
+                out.count(key=("form-errstate", label, src, dst), kind="failed-form-change", case="errstate")
+                raised = _judge_failed_form(out, sv, lambda: setattr(sv, "form", dst), np.errstate(all="raise"), "failed-change-state-form-errstate",
+                                            f"{label} state held in form {src} set to '{dst}' under np.errstate(all='raise')",
+                                            {"spec": spec, "case": "form-errstate", "state": label, "src": src, "dst": dst})
+                out.tally(f"errstate-{'raised' if raised else 'converted'}")
+    # 3. every leg of every route
+    pairs = [(a, b) for a in FORMS for b in FORMS if a != b]
+    if not thorough:
+        pairs = [pr for pr in pairs if len(route_legs(*pr)) >= 2]
+        pairs = rng.sample(pairs, 30)
+    for src, dst in pairs:
+        legs = route_legs(src, dst)
+        for k, leg in enumerate(legs):
+            for how_set in ("setter", "copy"):
+                sv = make_state(rng, dict(spec, form=src))
+                if not finite_state(sv):
+                    continue
+                out.count(key=("form-leg", src, dst, k, how_set), kind="failed-form-change", case=f"leg{k}-{how_set}")
+                thunk = (lambda: setattr(sv, "form", dst)) if how_set == "setter" else (lambda: sv.copy(form=dst))
+                raised = _judge_failed_form(out, sv, thunk, failing_leg(leg), f"failed-change-state-form-leg-{how_set}",
+                                            f"{src} -> {dst} ({how_set}) with leg {k} ({leg}) of {len(legs)} raising", {"spec": spec, "case": "form-leg", "src": src, "dst": dst, "leg": k, "how": how_set})
+                if not raised:
+                    out.fail("no-error-form-leg", f"{src} -> {dst}: the failing leg {leg} was not walked", {"spec": spec, "case": "form-leg", "src": src, "dst": dst, "leg": k})
+
+
+# ---------------------------------------------------------------- oracle: every public method that returns a state object
+
+TLE_TEXT = """ISS (ZARYA)
+1 25544U 98067A   18124.55610684  .00001524  00000-0  30197-4 0  9997
+2 25544  51.6421 236.2139 0003381  47.8509  47.6767 15.54198229111731"""
+
+
+def producers(rng, sv):
+    """(name, kind, thunk -> list of (receiver-or-argument, returned object)) for the public methods that RETURN a state object"""
+    from beyond.dates import timedelta
+    from beyond.orbits import Orbit
+    from beyond.frames.frames import get_frame
+    other = get_frame("ITRF" if sv._data["frame"].name != "ITRF" else "EME2000")
+    ps = [("Frame.transform", "transform", lambda: [(sv, sv.frame.transform(sv, other))]),
+          ("Form.__call__", "form-call", lambda: [(sv, r) for r in [sv.form(sv, "cartesian" if sv.form.name != "cartesian" else "keplerian")] if hasattr(r, "_data")])]
+    if isinstance(sv, Orbit):
+        step = timedelta(seconds=120)
+
+        def ephem_all():
+            eph = sv.ephem(start=sv.date, stop=step * 10, step=step)
+            stored = list(eph._orbits)
+            res = [eph.interpolate(sv.date + step * 1.5), eph.propagate(sv.date + step * 2.5)]
+            res += list(eph.iter(step=step * 1.5))[:2] + list(eph.iter())[:2] + list(eph.ephem()._orbits)[:2] + list(eph.copy()._orbits)[:2]
+            return [(x, r) for r in res for x in stored + [sv]]
+        ps += [("Orbit.propagate", "propagate", lambda: [(sv, sv.propagate(sv.date + step))]),
+               ("Orbit.iter", "iter", lambda: [(sv, r) for r in list(sv.iter(start=sv.date, stop=step * 2, step=step))]),
+               ("Orbit.ephem", "ephem", lambda: [(sv, r) for r in sv.ephem(start=sv.date, stop=step * 2, step=step)._orbits]),
+               ("Ephem.interpolate/propagate/iter/ephem/copy", "ephem-out", ephem_all)]
+    return ps
+
+
+def check_returned_objects(out, rng, spec):
+    """every public method that returns a state object hands out one that has no mutable cell in common with its receiver / argument
+    (identity partition, maneuver objects apart) and that no in-place change of one side shows in the other"""
+    probe = make_state(rng, spec)
+    for pi in range(len(producers(rng, probe))):
+        sv = make_state(rng, spec)
+        name, kind, thunk = producers(rng, sv)[pi]
+        before = snap_full(sv)
+        how, pairs = attempt(thunk, seconds=5.0)
+        inp = {"spec": spec, "producer": name}
+        out.count(key=("returned", name, spec["form"], spec["frame"], spec["orbit"], spec["cov"], spec["mans"], spec.get("meta")), kind="returned-object", op=kind)
+        if how != "ok":
+            out.fail(f"convert-raises-{kind}", f"{name} {'does not return' if how == 'hang' else 'raised'} {type(pairs).__name__}: {pairs}", inp, observed=repr(pairs))
+            continue
+        if snap_full(sv) != before:
+            out.fail(f"receiver-changed-{kind}", f"{name} changed its receiver / argument ({snap_diff(before, snap_full(sv))})", inp)
+            continue
+        if not pairs:
+            out.tally(f"returned-no-state-object={kind}")
+            continue
+        bad = False
+        for src, res in pairs:
+            if res is src:
+                out.fail(f"shared-object-after-{kind}", f"{name} returned its receiver / a stored object itself", inp)
+                bad = True
+                break
+            sh = [x for x in shared_cells(src, res) if x[0] != "man-object"]
+            if sh:
+                report_shared(out, sh, kind, name, inp, src, res)
+                bad = True
+                break
+        if bad:
+            continue
+        # behaviour: each in-place change of the first returned object / of the receiver, from a fresh production
+        n_muts = len(mutations(rng, pairs[0][1]))
+        for mi in range(n_muts):
+            for direction in ("result", "receiver"):
+                sv = make_state(rng, spec)
+                name, kind, thunk = producers(rng, sv)[pi]
+                how, pairs = attempt(thunk, seconds=5.0)
+                if how != "ok" or not pairs:
+                    break
+                src, res = pairs[0]
+                target, other = (res, src) if direction == "result" else (src, res)
+                ms = mutations(rng, target)
+                if mi >= len(ms):
+                    continue
+                field, mut = ms[mi]
+                if field == "man-object":
+                    continue
+                ref = snap_full(other)
+                how, err = attempt(mut)
+                out.count(key=("returned", name, mi, direction, spec["form"], spec["frame"], spec["cov"], spec["mans"], spec.get("meta")), kind="returned-object-separation", op=kind, field=field)
+                if snap_full(other) != ref:
+                    out.fail(f"shared-{field}-after-{kind}", f"after {name}, changing {field} of the {direction} shows in the other object ({snap_diff(ref, snap_full(other))})",
+                             dict(inp, mutation_index=mi, direction=direction), observed=str(snap_full(other))[:300], expected=str(ref)[:300])
+
+
+def check_tle_orbit(out, rng):
+    """Tle.orbit() builds a new Orbit on every call: two of them share nothing but the (value) Tle object they both refer to"""
+    import numpy as np
+    from beyond.io.tle import Tle
+    tle = Tle(TLE_TEXT)
+    a, b = tle.orbit(), tle.orbit()
+    out.count(key=("tle-orbit",), kind="returned-object", op="tle-orbit")
+    ref_list = list(tle.to_list())
+    sh = [x for x in shared_cells(a, b) if ".tle" not in x[1] and x[0] != "propagator"]
+    if a is b or sh:
+        out.fail("shared-object-after-tle-orbit", f"two calls of Tle.orbit() share {sh[0][1] if sh else 'the object itself'}", {"producer": "Tle.orbit"})
+        return
+    ref = snap_full(b)
+    a[0] = 1.0
+    a.form = "cartesian"
+    a.name = "other"
+    if snap_full(b) != ref or list(tle.to_list()) != ref_list:
+        out.fail("shared-coord-after-tle-orbit", "changing one Orbit returned by Tle.orbit() shows in another one / in the Tle", {"producer": "Tle.orbit"})
+
+
 # ---------------------------------------------------------------- oracle: the standard library's copy protocol
 
 def check_deepcopy(out, rng, spec):
@@ -1107,7 +1358,7 @@ def check_deepcopy(out, rng, spec):
 
 # ---------------------------------------------------------------- oracle: histories
 
-NEW_OBJECT_OPS = {"new", "copy", "copyf", "copyfr", "aso", "assv", "pickle", "ctor", "dcopy"}
+NEW_OBJECT_OPS = {"new", "copy", "copyf", "copyfr", "aso", "assv", "pickle", "ctor", "dcopy", "xform"}
 TRANSFORM_OPS = {"setfr", "setfrx"}
 
 
@@ -1199,6 +1450,12 @@ def oracle(ctx, widened):
         check_failed_change(out, rng, rand_spec(rng, form=form, cov=True))
     for _ in range(300 if big else 20):
         check_failed_change(out, rng, rand_spec(rng))
+    check_failed_form_change(out, rng, rand_spec(rng, frame="EME2000", orbit=False, cov=True, meta=1, mans=1), thorough=big)
+    for orbit in (True, False):
+        check_returned_objects(out, rng, rand_spec(rng, orbit=orbit, frame="EME2000", cov=True, covframe=None, mans=0, meta=1, lazy=True))
+    for _ in range(6 if big else 0):
+        check_returned_objects(out, rng, rand_spec(rng, mans=0))
+    check_tle_orbit(out, rng)
     for k in range(60 if big else 6):
         spec = rand_spec(rng, covframe=[None, "TNW", "QSW", None][k % 4])
         check_cov_constructors(out, rng, spec)
@@ -1222,7 +1479,11 @@ def replay(f):
     i = f["input"]
     rng = random.Random(0)
     fam = f["family"]
-    if fam.startswith("seq-") or fam == "heap-sequence":
+    if i.get("case", "").startswith("form-"):
+        check_failed_form_change(out, rng, i["spec"], thorough=True)
+    elif "producer" in i:
+        check_tle_orbit(out, rng) if i["producer"] == "Tle.orbit" else check_returned_objects(out, rng, i["spec"])
+    elif fam.startswith("seq-") or fam == "heap-sequence":
         check_sequence(out, i["ops"], i["kep"])
     elif fam.endswith("deepcopy") or fam == "deepcopy-values":
         check_deepcopy(out, rng, i["spec"])
@@ -1274,9 +1535,73 @@ def live_tables():
             "hill_keys": sorted(hill)}
 
 
+def form_setter_steps():
+    """the order of the effects of `StateVector.form.fset`, read from the AST: 'convert' (a call of the current Form object / of a conversion
+    function: computes on a copy, may raise), 'store' (writes into the object's own buffer, directly or through an alias of it), 'commit'
+    (`self._data['form'] = ...`); the body of a loop is taken twice (a route of at least two legs)"""
+    import ast
+    src = open(os.path.join(core.REPO, "beyond", "orbits", "statevector.py")).read()
+    tree = ast.parse(src)
+    fn = None
+    for cls in tree.body:
+        if isinstance(cls, ast.ClassDef) and cls.name == "StateVector":
+            for f in cls.body:
+                if isinstance(f, ast.FunctionDef) and f.name == "form" and any(ast.unparse(d) == "form.setter" for d in f.decorator_list):
+                    fn = f
+    if fn is None:
+        raise RuntimeError("StateVector.form setter not found")
+    arg = fn.args.args[1].arg
+    body = [st for st in fn.body if not (isinstance(st, ast.Expr) and isinstance(getattr(st, "value", None), ast.Constant))]
+    if not (body and ast.unparse(body[0]) == f"if isinstance({arg}, str):\n    {arg} = get_form({arg})"):
+        raise RuntimeError("form setter: unexpected head")
+    aliases, converters, steps = set(), set(), []
+    own = {"self.view(np.ndarray)", "self"}
+
+    def is_conversion(node):
+        for c in ast.walk(node):
+            if isinstance(c, ast.Call):
+                f = ast.unparse(c.func)
+                if f in ("self._data['form']", "self.form") or f in converters or "_to_" in f:
+                    return True
+        return False
+
+    def walk(stmts):
+        for st in stmts:
+            if isinstance(st, (ast.For, ast.While)):
+                walk(st.body)
+                walk(st.body)
+                continue
+            if isinstance(st, ast.If) or isinstance(st, ast.Try) or isinstance(st, ast.With):
+                raise RuntimeError(f"form setter: `{ast.unparse(st).splitlines()[0]}` is not modelled")
+            if not (isinstance(st, ast.Assign) and len(st.targets) == 1):
+                raise RuntimeError(f"form setter: `{ast.unparse(st)}` is not modelled")
+            tgt, val = st.targets[0], st.value
+            t = ast.unparse(tgt)
+            if isinstance(tgt, ast.Name):
+                if ast.unparse(val) in own:
+                    aliases.add(t)
+                elif isinstance(val, ast.Call) and ast.unparse(val.func) == "getattr":
+                    converters.add(t)
+                elif is_conversion(val):
+                    steps.append("convert")
+                continue
+            if isinstance(tgt, ast.Subscript) and (ast.unparse(tgt.value) in own or ast.unparse(tgt.value) in aliases):
+                if is_conversion(val):
+                    steps.append("convert")
+                steps.append("store")
+                continue
+            if t == "self._data['form']":
+                steps.append("commit")
+                continue
+            raise RuntimeError(f"form setter: `{ast.unparse(st)}` is not modelled")
+    walk(body[1:])
+    return steps
+
+
 def extract(ctx):
     t = live_tables()
     ctx.tables = t
+    t["form_steps"] = form_setter_steps()
     # the same tables read from the source text (AST) as a self-check of the live extraction
     import ast
     src = open(os.path.join(core.REPO, "beyond", "orbits", "forms.py")).read()
@@ -1305,6 +1630,9 @@ def extract(ctx):
            "/-- built-in Earth-centred frames: registry key ↦ `Frame.name` -/",
            f"def frameKeys : List (String × String) := {pairs(t['frame_keys'])}",
            "def hillKeys : List String := [" + ", ".join(map(_lstr, t["hill_keys"])) + "]",
+           "/-- effects of `StateVector.form.fset` in source order, read from the AST of beyond/orbits/statevector.py (convert = the Form object / a conversion function is called: computed on a copy, may raise; "
+           "store = written into the object's buffer; commit = `self._data[\"form\"] = …`; a loop body appears twice) -/",
+           "def formSetterSteps : List String := [" + ", ".join(map(_lstr, t["form_steps"])) + "]",
            "end BeyondVerif.Generated.FormTables"]
     ch = core.write_if_changed(os.path.join(core.LEAN, "BeyondVerif", "Generated", "HeapTables.lean"), "\n".join(out) + "\n")
     return ["Generated/HeapTables.lean"] if ch else []
@@ -1392,6 +1720,13 @@ class Real:
             v.append(Orbit(src, src.date, src.form, src.frame, Kepler()) if a[1] == "1" else StateVector(src, src.date, src.form, src.frame))
         elif name == "setf":
             v[int(a[0])].form = a[1]
+        elif name == "setfx":    # a form change one leg of whose route raises
+            with failing_leg(a[2]):
+                v[int(a[0])].form = a[1]
+        elif name == "xform":    # Frame.transform called directly: a method that returns a new state object
+            from beyond.frames.frames import get_frame
+            sv = v[int(a[0])]
+            v.append(sv.frame.transform(sv, get_frame(a[1])))
         elif name == "setfr":
             v[int(a[0])].frame = a[1]
         elif name == "setfrx":   # a frame assignment made to fail by the environment
@@ -1676,7 +2011,7 @@ SET_NAMES = ["x", "vz", "a", "e", "i", "raan", "Omega", "Ω", "omega", "nu", "ν
 
 
 META_KEYS = ["tags", "nested", "name", "arr", "zz"]
-OP_WEIGHTS = [("copy", 12), ("copyf", 9), ("copyfr", 10), ("aso", 7), ("assv", 5), ("ctor", 3), ("setf", 7), ("setfr", 11), ("setfrx", 4), ("seta", 5), ("seti", 3),
+OP_WEIGHTS = [("copy", 12), ("copyf", 9), ("copyfr", 10), ("aso", 7), ("assv", 5), ("ctor", 3), ("setf", 7), ("setfx", 5), ("xform", 6), ("setfr", 11), ("setfrx", 4), ("seta", 5), ("seti", 3),
               ("covfr", 5), ("readman", 5), ("addman", 5), ("lappend", 4), ("dset", 3), ("nappend", 3), ("aset", 2), ("setcov", 3), ("covfrom", 5), ("pickle", 5)]
 
 
@@ -1704,6 +2039,10 @@ def rand_ops(rng, maxlen=6, dcopy=True):
             op = [name, i, form]
         elif name in ("copyfr", "setfr"):
             op = [name, i, frame]
+        elif name == "setfx":
+            op = [name, i, rng.choice(FORMS), "?", str(rng.randrange(6))]     # the failing leg is fixed by the dry run (resolve_indices)
+        elif name == "xform":
+            op = [name, i, rng.choice(FRAMES + ["Hill"] * (rng.random() < 0.1))]
         elif name == "ctor":
             op = [name, i, str(int(rng.random() < 0.4))]
         elif name == "setfrx":
@@ -1786,6 +2125,14 @@ def resolve_indices(ops, kep):
             op[1] = str(int(op[1]) % max(1, len(real.vars))) if real.vars else "0"
             if op[0] == "covfrom":
                 op[2] = str(int(op[2]) % max(1, len(real.vars))) if real.vars else "0"
+            if op[0] == "setfx":
+                # leg k (mod the number of legs) of the route from the form the object is in at that point; no leg: a plain assignment
+                legs = route_legs(real.vars[int(op[1])]._data["form"].name, op[2]) if real.vars else []
+                if legs:
+                    k = int(op[4]) % len(legs)
+                    op = [op[0], op[1], op[2], legs[k], str(k)]
+                else:
+                    op = ["setf", op[1], op[2]]
         real.run(op)
         fixed.append(op)
     return fixed
